@@ -1004,6 +1004,9 @@ def run(ctx: Any, prog: Program) -> None:
     # is what the reader does - a merged value packed for a layout whose reader takes the slot whole ends up in one field.
     ctx.rule('C11.L30', 'a slot is packed as `a << K | b` under exactly the layouts for which the reader splits it with `>> K`', floor=5)
 
+    def _layout_test(t_: ast.AST) -> bool:
+        return bool(re.search(r'\bversion\b|VERSIONS|game_ver|is_vitamin|lump_layout|has_ambient', U(t_)))
+
     def _active(node: ast.AST, fn_: ast.AST, ex_: Extractor) -> Optional[bool]:
         ch_: ast.AST = node
         an_ = bsp.parents.get(ch_)
@@ -1013,10 +1016,34 @@ def run(ctx: Any, prog: Program) -> None:
                 if not in_test:
                     t_ = ex_.ev(an_.test)
                     if t_ is UNKNOWN_:
-                        return None
+                        if _layout_test(an_.test):
+                            return None
+                        ch_, an_ = an_, bsp.parents.get(an_)
+                        continue            # a test on the data: both arms are possible under every layout
                     in_body = any(ch_ is b for b in an_.body)
                     if bool(t_) != in_body:
                         return False
+            # a guard clause in front of it (`if is_vitamin: <other record>; continue`) makes the rest of the block its else branch
+            for fld_ in ('body', 'orelse', 'finalbody'):
+                blk_ = getattr(an_, fld_, None)
+                if isinstance(blk_, list) and ch_ in blk_:
+                    for st_ in blk_[:blk_.index(ch_)]:
+                        if isinstance(st_, ast.If) and st_.body and isinstance(st_.body[-1], (ast.Continue, ast.Return, ast.Raise, ast.Break)):
+                            t_ = ex_.ev(st_.test)
+                            if t_ is UNKNOWN_:
+                                if _layout_test(st_.test):
+                                    return None
+                                continue
+                            if t_:
+                                return False
+                        elif isinstance(st_, ast.If) and st_.orelse and isinstance(st_.orelse[-1], (ast.Continue, ast.Return, ast.Raise, ast.Break)):
+                            t_ = ex_.ev(st_.test)
+                            if t_ is UNKNOWN_:
+                                if _layout_test(st_.test):
+                                    return None
+                                continue
+                            if not t_:
+                                return False
             ch_, an_ = an_, bsp.parents.get(an_)
         return True
     n30 = 0
